@@ -23,6 +23,7 @@ struct Shared {
   std::vector<CrossSection> x;   // some with pending lazy transforms
   ExecutionContext ctx;          // polled / cancelled from other threads
   Manifold observed;             // m-expression with ctx attached
+  std::vector<Manifold> observedMore;  // further lazy expressions observed through the same ctx
 };
 
 struct ThreadLog {
@@ -78,6 +79,12 @@ void buildPool(vh::Rng& r, Shared& s) {
   // context (the statement only promises that cancelling/polling is race-free).
   Manifold inner = leaf(r).Translate(vec3(0.1, 0.2, 0.3)) + leaf(r).Rotate(r.uni(0, 90), 0, 0);
   s.observed = ((inner - leaf(r).Translate(vec3(0.2))) + inner.Translate(vec3(0.4, 0, 0))).WithContext(s.ctx);
+  // several more first evaluations per round through the (possibly cancelled) context
+  int more = (int)r.range(1, 4);
+  for (int i = 0; i < more; i++) {
+    Manifold in2 = leaf(r).Translate(vec3(0.05 * i, 0.1, 0.2)) - leaf(r).Rotate(0, r.uni(0, 90), 0);
+    s.observedMore.push_back(((in2 + leaf(r).Translate(vec3(0.3))) ^ in2.Translate(vec3(0.2, 0.1, 0))).WithContext(s.ctx));
+  }
 }
 
 std::string hashM(const Manifold& m, int field) {
@@ -117,6 +124,7 @@ void threadProgram(const Shared& s, uint64_t seed, int steps, int role, ThreadLo
     for (int i = 0; i < steps; i++) {
       log.ops++;
       int op = (int)r.below(role == 2 ? 14 : 12);
+      if (r.chance(0.15)) op = 10;  // more evaluations through the shared context
       switch (op) {
         case 0: case 1: case 2: {  // const query on a shared Manifold (possibly the first, forcing, call)
           int k = (int)r.below(s.m.size()), f = (int)r.below(10);
@@ -155,14 +163,19 @@ void threadProgram(const Shared& s, uint64_t seed, int steps, int role, ThreadLo
         }
         case 10: {  // evaluation through the shared, possibly cancelled, context
           Manifold::Error st;
-          if (r.chance(0.5)) st = s.observed.Status();
-          else { Manifold c(s.observed); st = c.Status(); }  // copies keep the attachment
+          const Manifold& ob = r.chance(0.4) ? s.observed : s.observedMore[r.below(s.observedMore.size())];
+          if (r.chance(0.5)) st = ob.Status();
+          else { Manifold c(ob); st = c.Status(); }  // copies keep the attachment
           log.ctxStatus.push_back((int)st);
           break;
         }
         case 11: {  // poll
+          // Race-freedom of polling is what C06 promises. The VALUE is not
+          // checked here: several evaluations run through this one context
+          // concurrently, for which the library documents undefined progress
+          // values (common.h); the single-evaluation progress contract is C15's.
           double p = s.ctx.Progress();
-          if (!(p >= 0.0 && p <= 1.0)) log.error = "Progress() out of range: " + std::to_string(p);
+          (void)p;
           (void)s.ctx.Cancelled();
           break;
         }
